@@ -172,7 +172,7 @@ def lazy_documents():
         yield ('> ' * n + 'w\n' + '> ' * n + '\n' + '> ' * n + '# h\n', [('quote', 1)] * n + [('para', 1), ('atx', 3)])
         yield ('- ' * n + 'w\n', [x for _ in range(n) for x in (('list', 1), ('item', 1))] + [('para', 1)])
     # tables whose rows have fewer / as many / more cells than the delimiter row has columns (every cell reports the row's line)
-    rows = ['| c |', '| c | d |', '| c | d | e |', '| c | d | e | f |', '|', '| | | |']
+    rows = ['| c |', '| c | d |', '| c | d | e |', '| c | d | e | f |', '|', '| | | |', '|---|---|', '| x | y |', '- | -']
     for k in range(1, len(rows) + 1):
         for perm in __import__('itertools').permutations(rows, k) if k <= 2 else [tuple(rows[:k])]:
             t = ['| h | k |', '|---|---|'] + list(perm)
